@@ -443,6 +443,7 @@ func TestVerifC11E2E(t *testing.T) {
 		panicked := false
 		taskPods := [3][]*c11Pod{}
 		taskBuilt := [3]bool{}
+		allocKeys := map[int]bool{} // resources the allocatable task wants released
 		for f, ft := range c11eFeatures {
 			if capacity <= 0 {
 				break // buildEvictTask divides by the capacity; cpuEvict() returns before calling it
@@ -472,6 +473,11 @@ func TestVerifC11E2E(t *testing.T) {
 				to = append(to, kv{resIdx[rn], v})
 			}
 			sort.Slice(to, func(i, j int) bool { return to[i].r < to[j].r })
+			if f == 1 {
+				for _, x := range to {
+					allocKeys[x.r] = true
+				}
+			}
 			var sb strings.Builder
 			fmt.Fprintf(&sb, "task %d %d", f, len(to))
 			for _, x := range to {
@@ -567,6 +573,16 @@ func TestVerifC11E2E(t *testing.T) {
 			}
 			if c.feat == 2 && usageTarget >= 0 && okReal >= usageTarget {
 				h.Fail("C11:evict-after-met", "e2e: pod %d evicted by %s although the victims so far really use %d >= target %d", p.id, c11eFeatures[c.feat], okReal, usageTarget)
+			}
+			if c.feat == 1 && !p.clsAmbiguous() {
+				// the allocatable task credits a victim under the resource of its priority class only
+				res, isExt := (map[int]int{2: 4, 3: 2})[p.cls()]
+				if !isExt {
+					res = 0 // native
+				}
+				if !allocKeys[res] || !isExt || p.request() == 0 {
+					h.Fail("C11:victim-frees-nothing-short", "e2e %s: pod %d (class %d, request %d under resource %d) releases nothing of the target's resources %v", c11eFeatures[1], p.id, p.cls(), p.request(), res, allocKeys)
+				}
 			}
 			if c.ok {
 				okPods[p.id] = true
